@@ -45,6 +45,8 @@ def run(ctx, rep):
     rep.rule("R03-DISCHARGE", "value_as_term has an arm per Value constructor; with_env visits every Term constructor that has sub-terms", floor=15)
     rep.rule("R03-ARITY", "arity = call-arm arguments = cost-arm size arguments = Aiken arity; force_count = Aiken type variables (91 builtins)", floor=91)
     rep.rule("R03-CASECONST", "case on a constant is gated by semantics E and its tag / field / branch-count table matches the specification", floor=7)
+    rep.rule("R03-TYPEOF", "the type of a constant (Type::from(&Constant), what mkCons and the type errors compare) names the constant's own kind, and carries the type components of lists and pairs in their own positions", floor=11)
+    rep.guarded("R03-TYPEOF", lambda: r_typeof(sh, rep))
     rep.guarded("R03-FRAMES", lambda: r_frames(sh, rep))
     rep.guarded("R03-DISCHARGE", lambda: r_discharge(sh, rep))
 
@@ -374,3 +376,36 @@ def r_push(sh, rep):
     exits = [n for n in walk(f["body"]) if n["k"] in ("Return", "Try") or (n["k"] == "Call" and call_name(n) == "Err") or (n["k"] == "Macro" and last(n.get("path", "")) in ("panic", "unreachable", "todo"))]
     pushes = [n for n in walk(f["body"]) if n["k"] == "MethodCall" and n["m"] == "push"]
     rep.check(not exits and len(pushes) == 1, "R03-PUSH", "BuiltinRuntime::push#total", sh.loc(RT, exits[0]) if exits else sh.loc(RT, f), "BuiltinRuntime::push can fail or leave early (%s at line %s): a partial application of a builtin to an arbitrary value must itself be a value — rejecting it changes the result of programs that build such a closure and never saturate it" % (exits[0]["k"] if exits else "-", exits[0]["s"][0] if exits else "-"), sample={"statements": len(f["body"].get("stmts", []))})
+
+
+def r_typeof(sh, rep):
+    ims = [im for im in find_impls(sh.file(M), "Type", any_trait=True) if "From" in (im.get("trait") or "") and "Constant" in (im.get("trait") or "")]
+    if not ims:
+        raise AnchorMissing("impl From<&Constant> for Type")
+    f = next(it for it in ims[0]["items"] if it["k"] == "Fn" and it["name"] == "from")
+    rep.touched(M, "<Type as From<&Constant>>::from")
+    m = next(matches_in(f["body"]), None)
+    if m is None:
+        raise AnchorMissing("match in Type::from(&Constant)")
+    KIND = {"ProtoList": "List", "ProtoPair": "Pair"}
+    for v, arm, alt in arm_table(m):
+        if v is None:
+            rep.bad("R03-TYPEOF", "from#catch-all", sh.loc(M, arm), "Type::from(&Constant) has a catch-all arm")
+            continue
+        built = [x for x in walk(arm["body"]) if x.get("k") in ("Path", "Call") and (x.get("p") or call_name(x) or "").startswith("Type::")]
+        head = last((built[0].get("p") or call_name(built[0]))) if built else None
+        want = KIND.get(v, v)
+        ok = head == want
+        detail = ""
+        if ok and v in KIND:
+            binds = [e.get("name") for e in alt.get("elems", []) if e.get("k") == "Ident"]
+            call = next((x for x in walk(arm["body"]) if x.get("k") == "Call" and (call_name(x) or "").endswith("Type::" + want)), None)
+            nty = 1 if v == "ProtoList" else 2
+            if call is None or len(binds) < nty or len(call["args"]) != nty:
+                ok, detail = False, "shape not recognised"
+            else:
+                for i in range(nty):
+                    names = {y["p"] for y in walk(call["args"][i]) if y.get("k") == "Path"}
+                    if binds[i] not in names or any(b in names for j, b in enumerate(binds[:nty]) if j != i):
+                        ok, detail = False, "component %d of Type::%s is built from %s, not from the constant's component %d (`%s`)" % (i + 1, want, sorted(names & set(binds)), i + 1, binds[i])
+        rep.check(ok, "R03-TYPEOF", "from#%s" % v, sh.loc(M, arm), "the type of a %s constant must be Type::%s with its type components in place (%s): mkCons compares this type with the list's element type, so a pair of two different types can no longer be consed — and one with the components swapped can" % (v, want, detail or "found %s" % head), sample={"constant": v, "type": head})
